@@ -5,7 +5,9 @@
 (* The state is what a user builds and then asks: a slit set (AddSlit), the constructor    *)
 (* (Construct / Reject: slit validation), the direct query time_offset_open/close (Direct, *)
 (* or Refuse when the frequency is out of phase with the source) and the expansion over    *)
-(* several source pulses for a chopper cascade (Expand).  `reported` holds the answer      *)
+(* several source pulses for a chopper cascade (Expand), and the same object asked again   *)
+(* with another pulse frequency (AskAgain).  The constructor is handed the slits in any     *)
+(* listing order (Orders / Listed).  `reported` holds the answer                            *)
 (* computed with the DOCUMENTED FORMULAS; the invariants compare it with the SIMULATED     *)
 (* DISK (CellAt / OpenCells in DiskChopperDefs), which is defined independently from the   *)
 (* geometry.  Bug selects a wrong variant (negative controls).                              *)
@@ -16,10 +18,13 @@ CONSTANTS K,          \* ticks per turn
           BeamPos,    \* set of beam positions (ticks)
           Phases,     \* set of phases (ticks, several turns, either sign)
           Ratios,     \* set of <<num, den>> = |f| / f_pulse (in phase or not)
+          MinPulses,  \* 1, or 2 where Expand(1) is left to the invariant ExpandOnePulse (= the direct answer)
           MaxPulses,
           MaxTurns,   \* the expansion is explored up to this many rotations
           Pick,       \* 0: exhaustive; k > 0 (-simulate): k random slits / setups per step
-          Bug         \* "none" | "nowrap" | "perpulse" | "swap" | "phasesign" | "gap"
+          Again,      \* TRUE: the same chopper object may be asked again with another pulse frequency
+          Bug         \* "none" | "nowrap" | "wraplisted" | "perpulse" | "swap" | "phasesign" | "gap" |
+                      \* "truncate" | "stalefactor"
 
 VARIABLES slits, setup, stage, reported
 vars == <<slits, setup, stage, reported>>
@@ -39,15 +44,18 @@ AddSlit(b, e) ==
     /\ slits' = Append(slits, <<b, e>>)
     /\ UNCHANGED <<setup, stage, reported>>
 
+(* The caller may list the slits in any order; the constructor sees one of them.  A correct   *)
+(* validation gives the same verdict for every order, so Reject and Construct are never both  *)
+(* enabled (invariant ValidationIgnoresListingOrder).                                          *)
 Reject ==
     /\ stage = "slits" /\ Len(slits) >= 1
-    /\ ~ProcValid(slits, K, Bug)
+    /\ \E q \in Orders(Len(slits)) : ~ProcValid(Listed(slits, q), K, Bug)
     /\ stage' = "rejected"
     /\ UNCHANGED <<slits, setup, reported>>
 
 Construct(bp, ph, cw, r) ==
     /\ stage = "slits" /\ Len(slits) >= 1
-    /\ ProcValid(slits, K, Bug)
+    /\ \E q \in Orders(Len(slits)) : ProcValid(Listed(slits, q), K, Bug)
     /\ setup' = [bp |-> bp, ph |-> ph, cw |-> cw, num |-> r[1], den |-> r[2]]
     /\ stage' = "ready"
     /\ UNCHANGED <<slits, reported>>
@@ -70,6 +78,20 @@ Expand(np) ==
     /\ stage' = "expanded"
     /\ UNCHANGED <<slits, setup>>
 
+(* Second use: the chopper object that has already answered is asked again with ANOTHER      *)
+(* pulse frequency (the chopper frequency stays, so the ratio changes).  The answer must be   *)
+(* the one a fresh object would give.  bug = "stalefactor": the number of rotations per pulse *)
+(* is remembered from the first question.                                                      *)
+AskAgain(r2) ==
+    /\ Again /\ stage = "direct"
+    /\ r2 # <<setup.num, setup.den>> /\ InPhaseProc(r2[1], r2[2])
+    /\ LET c2 == [Cfg EXCEPT !.num = r2[1], !.den = r2[2]]
+       IN reported' = IF Bug = "stalefactor" THEN ReportedTurns(c2, -1, NRep(Cfg) - 1, Bug)
+                      ELSE ReportedDirect(c2, Bug)
+    /\ setup' = [setup EXCEPT !.num = r2[1], !.den = r2[2]]
+    /\ stage' = "asked_again"
+    /\ UNCHANGED slits
+
 AddAnySlit ==
     /\ stage = "slits"
     /\ IF Pick = 0 THEN \E b \in 0..(K-1) : \E e \in (b+1)..(b+K-1) : AddSlit(b, e)
@@ -85,23 +107,29 @@ ConstructAny ==
     ELSE \E k \in 1..Pick : \E cw \in BOOLEAN :
             \E bp \in { RandomElement(BeamPos) } : \E ph \in { RandomElement(Phases) } :
             \E r \in { RandomElement(Ratios) } : Construct(bp, ph, cw, r)
-ExpandAny    == \E np \in 1..MaxPulses : Expand(np)
+ExpandAny    == \E np \in MinPulses..MaxPulses : Expand(np)
+AskAgainAny  == \E r2 \in Ratios : AskAgain(r2)
 
-Next == AddAnySlit \/ Reject \/ ConstructAny \/ Refuse \/ Direct \/ ExpandAny
+Next == AddAnySlit \/ Reject \/ ConstructAny \/ Refuse \/ Direct \/ ExpandAny \/ AskAgainAny
 
 Spec == Init /\ [][Next]_vars
 
 -----------------------------------------------------------------------------
-Answered == stage \in {"direct", "expanded"}
+Answered == stage \in {"direct", "expanded", "asked_again"}
 
-TypeOK == /\ stage \in {"slits", "rejected", "ready", "refused", "direct", "expanded"}
+TypeOK == /\ stage \in {"slits", "rejected", "ready", "refused", "direct", "expanded", "asked_again"}
           /\ WellFormed(slits, K)
           /\ Answered => Len(reported) > 0
 
 (* slit sets that overlap on the circle (also across TDC) are rejected, all others accepted *)
 RejectedIffOverlap ==
     /\ stage = "rejected" => ~ValidSlits(slits, K)
-    /\ stage \in {"ready", "refused", "direct", "expanded"} => ValidSlits(slits, K)
+    /\ stage \in {"ready", "refused", "direct", "expanded", "asked_again"} => ValidSlits(slits, K)
+
+(* the verdict of the validation does not depend on the order in which the slits are listed  *)
+ValidationIgnoresListingOrder ==
+    stage = "slits" =>
+        \A q \in Orders(Len(slits)) : ProcValid(Listed(slits, q), K, Bug) = ProcValid(slits, K, Bug)
 
 (* out-of-phase frequencies are refused, in-phase ones answered                             *)
 RefusedIffOutOfPhase ==
@@ -113,7 +141,9 @@ MaximalOpen     == Answered => AllMaximalOpenOf(Cfg, reported)
 OncePerRotation == Answered => NoDuplicateOf(reported)
 NoneMissing     == Answered => NoneMissingOf(Cfg, reported)
 DurationIsWidth == Answered => DurationIsWidthOf(Cfg, reported, Durations(reported))
-DirectCoversPulse == stage = "direct" => CoversPulsesOf(Cfg, reported, 1)
+DirectCoversPulse == stage \in {"direct", "asked_again"} => CoversPulsesOf(Cfg, reported, 1)
+(* asked again = what a fresh chopper object answers                                         *)
+SecondAnswerIsFresh == stage = "asked_again" => reported = ReportedDirect(Cfg, "none")
 ExpandCoversPulses == [][\A np \in 1..MaxPulses : Expand(np) => CoversPulsesOf(Cfg, reported', np)]_vars
 
 (* the expansion over one pulse is the direct answer                                        *)
